@@ -7,6 +7,10 @@ BASELINE_OFF = ("cd /repo && cargo nextest run --workspace --no-fail-fast --test
 
 # id -> (level, technique, design_ref, text, note)
 CHECKS = {
+ "C14": ("exploration", "exhaustive enumeration of boundary-field products and of all short strings near each grammar, against reference codecs, on the real public functions",
+         "DESIGN §4 C14",
+         "Timestamps: the full product of boundary calendar fields x UTC offsets x 3 formats (identity and instant preservation against proleptic-Gregorian arithmetic, itself cross-checked per instant with aws-smithy-types). Ranges: all small values and all strings of <=5 (6) symbols over a grammar-near alphabet against the RFC 9110 single-range grammar and interval function. Copy sources: bucket x key x version alphabets as a client and as the library encode them. Content types: a grammar product.",
+         "range strings in lenient list syntax, with a non-lower-case unit or a suffix length >= 2^63 are recorded, not judged; characters outside the alphabets are not covered"),
  "C10": ("exploration", "bounded exhaustive enumeration (deviation bound 2) of form shapes, file contents and policies plus every single-character mutation of the authentication fields, against a reference form verifier, on the real S3Service::call",
          "DESIGN §4 C10",
          "A policy-signed base form with 0, 1 and 2 simultaneous deviations over ~300 axes (incl. every single byte value as file content, CR/LF runs, proper prefixes of the delimiter, 3 boundaries, 19 policies on both sides of the owned clock and of every condition) and every single-character mutation / removal / emptying of policy, signature, credential, date and algorithm. Acceptance is judged by a reference verifier (HMAC, expiry, each condition); an accepted upload is compared field-wise and byte-wise with the form.",
